@@ -108,6 +108,17 @@ impl Net {
         Self::with_size(seg, timeouts, retry, DATA)
     }
 
+    pub fn with_cfg(seg: Segment, timeouts: Timeouts, config: MainDeviceConfig) -> Self {
+        let mut n = Self::with_size(seg, timeouts, config.retry_behaviour, DATA);
+        // replace the MainDevice configuration (the PDU loop is untouched)
+        unsafe {
+            let old = Box::from_raw(n.md);
+            let pl = old.release();
+            n.md = Box::into_raw(Box::new(MainDevice::new(pl, timeouts, config)));
+        }
+        n
+    }
+
     pub fn with_size(seg: Segment, timeouts: Timeouts, retry: RetryBehaviour, data: usize) -> Self {
         clock::reset();
         let (sto, tx, rx, pl) = StoPtr::new(data);
